@@ -60,6 +60,12 @@ def run(ctx):
               lambda P_: wire(P_, W, r'TreeKemPrivate::update_secrets$', 2, r'decrypt_group_info_internal\(.*\)\.0\.signer$'), floor=1)
     ctx.check('WIRE', 'joiner: path secret is the one from its GroupSecrets',
               lambda P_: wire(P_, W, r'TreeKemPrivate::update_secrets$', 3, r'decrypt_group_info_internal\(.*\)\.2\.path_secret$'), floor=1)
+    # the GroupInfo a joiner (Welcome) or an external committer receives is signed by the committer's leaf OF THE NEW EPOCH: when the
+    # commit rotates the committer's signing identity, that is the new signer, the one the update path installs in the tree
+    ctx.check('WIRE', 'GroupInfo of the new epoch is signed with the signer of the new epoch',
+              lambda P_: wire(P_, 'Group::commit_internal', r'Group::make_group_info$', 4, r'new_signer'), floor=1)
+    ctx.check('WIRE', 'the update path (new leaf) is signed with the same signer',
+              lambda P_: wire(P_, 'Group::commit_internal', r'TreeKem::encap$', 3, r'new_signer'), floor=1)
     from .C09 import generator_condition
     ctx.check('SIBLING', 'joiner and committer advance the path-secret generator under the same condition (joiner)',
               generator_condition('TreeKemPrivate::update_secrets'), floor=1)
